@@ -23,7 +23,9 @@ def correspondence(ctx):
     _spec.loader.exec_module(mod)
     quick = ctx.tier == 'quick'
     seed = ctx.rng.randrange(1, 10 ** 5)
-    cs = mod.cases(seed, 20 if quick else 300)
+    cs = common.safe_cases(ctx, NAME, lambda: mod.cases(seed, 20 if quick else 300))
+    if cs is None:
+        return
     nops = 0
     for c in cs:
         nops += len(c['ops'])
